@@ -870,6 +870,20 @@ def goroutines_serial(case):
             if "panic" in str(io.get("g2")) or "deadlock" in str(io.get("g2")) or io.get("g1panic"):
                 return [dict(step=idx, what="stale-validation-panics", detail=dict(cmd=strip(ln), obs=io))]
             continue
+        if ln.get("k") == "witness" and str(ln.get("point", "")).startswith("stale-validation."):
+            # a call validated before the mutex and executed after another goroutine shrank the container behaves as if made
+            # after the shrink: refused (the position no longer exists), nothing changed, identifiers gapless — never a panic
+            if io.get("setup") or io.get("pointNotReached"):
+                return [dict(step=idx, what="witness-setup-failed", detail=dict(cmd=strip(ln), obs=io))]
+            if "panic" in str(io.get("g2")) or "deadlock" in str(io.get("g2")) or io.get("g1panic"):
+                return [dict(step=idx, what="stale-validation-panics", detail=dict(cmd=strip(ln), obs=io))]
+            vals = list((io.get("view") or {}).values())
+            if io.get("g2") != "g2:err" or not vals or vals[0] != ["a", "b"]:
+                return [dict(step=idx, what="stale-validation-not-serial", detail=dict(cmd=strip(ln), obs=io))]
+            seqs = io.get("seqs") or []
+            if not io.get("after") or seqs != list(range(1, len(seqs) + 1)):
+                return [dict(step=idx, what="stale-validation-breaks-identifiers", detail=dict(cmd=strip(ln), obs=io))]
+            continue
         if ln.get("k") == "witness" and str(ln.get("point", "")).startswith("tx.failing-with-waiter"):
             # the failing transaction leaves nothing; the caller that waited for the mutex is served as if alone
             remote = ln["point"].endswith("remote")
